@@ -8,7 +8,7 @@ staying alive, die, or produce the match late.  The clock is virtual, so
 from . import harness
 from .engine import Violation, gen_costs, collect_info
 from .harness import EOF, TIMEOUT
-from .world import SimHang
+from .world import SimHang, HarnessError
 
 EPS_US = 500000          # bounded overhead allowed on top of T (virtual)
 EARLY_SLACK_US = 100     # float rounding of deadlines
@@ -169,6 +169,9 @@ def _ops(scn):
 
 
 def run(scn):
+    if scn.get('maxread', 1) < 1 or scn.get('size', 1) < 1:
+        raise HarnessError('degenerate read size')
+
     def body(r):
         sc = dict(scn)
         child = r.make_child()
